@@ -35,7 +35,7 @@ var Values = [][]byte{{}, []byte("v"), []byte("w"), []byte("vw"), {0}, {0xff}, i
 type Profile struct {
 	Name                                                                string
 	Mutate, MutateRows, Cam, Rmw, Read, Keys, Modify, DropRange, Create int
-	Delete, List, Get, Gc, Clock, Rand, Gcw                             int
+	Delete, List, Get, Gc, Clock, Rand, Gcw, Idle                       int
 	ReadAfterWrite                                                      bool
 	Filters                                                             int // chance (%) that a read carries a filter
 	RowSets                                                             int // chance (%) that a read carries a RowSet
@@ -55,6 +55,8 @@ var Profiles = map[string]Profile{
 	"c13":    {Name: "c13", Mutate: 20, Rmw: 60, Read: 5, Clock: 10, ReadAfterWrite: true, Invalid: 5, MinOps: 4, MaxOps: 30},
 	"c14":    {Name: "c14", Mutate: 15, MutateRows: 10, Modify: 20, DropRange: 15, Create: 10, Delete: 8, List: 6, Get: 8, Read: 8, Keys: 3, ReadAfterWrite: true, Invalid: 5, MinOps: 6, MaxOps: 40, GcRules: true},
 	"c16":    {Name: "c16", Mutate: 25, MutateRows: 15, Gc: 25, Clock: 15, Modify: 8, Read: 5, Keys: 4, ReadAfterWrite: true, MinOps: 6, MaxOps: 40, GcRules: true},
+	// the background loop's pass and the quiescence it waits for: time passes, requests come, the pass is tried
+	"c16q":   {Name: "c16q", Mutate: 30, MutateRows: 8, Rmw: 4, Cam: 4, Idle: 45, Read: 10, Gc: 3, Clock: 10, Modify: 4, MinOps: 8, MaxOps: 40, GcRules: true, Invalid: 15},
 	"c03big": {Name: "c03big", Mutate: 5, Read: 90, Keys: 5, RowSets: 70, Filters: 10, MinOps: 6, MaxOps: 14, Big: 450},
 	"c16w":   {Name: "c16w", Mutate: 10, Gcw: 50, Clock: 20, Read: 10, Keys: 10, ReadAfterWrite: true, MinOps: 4, MaxOps: 10, GcRules: true, Big: 260},
 	"c08":    {Name: "c08", Mutate: 25, MutateRows: 12, Cam: 4, Rmw: 6, Modify: 12, DropRange: 12, Create: 10, Delete: 8, Gc: 3, Clock: 3, MinOps: 8, MaxOps: 35, GcRules: true, Invalid: 5},
@@ -472,7 +474,7 @@ func (g *Gen) Program() []core.Op {
 	}
 	p := g.P
 	n := p.MinOps + g.R.Intn(p.MaxOps-p.MinOps+1)
-	w := []int{p.Mutate, p.MutateRows, p.Cam, p.Rmw, p.Read, p.Keys, p.Modify, p.DropRange, p.Create, p.Delete, p.List, p.Get, p.Gc, p.Clock, p.Rand, p.Gcw}
+	w := []int{p.Mutate, p.MutateRows, p.Cam, p.Rmw, p.Read, p.Keys, p.Modify, p.DropRange, p.Create, p.Delete, p.List, p.Get, p.Gc, p.Clock, p.Rand, p.Gcw, p.Idle}
 	for i := 0; i < n; i++ {
 		t := g.pickTable()
 		write := true
@@ -620,6 +622,21 @@ func (g *Gen) Program() []core.Op {
 			}
 			prog = append(prog, o)
 			g.passed = true
+		case 16:
+			// time passes for the table (well away from the five-minute threshold: the requests in between
+			// take real time too), then — usually — the background pass is tried and the table looked at
+			if g.R.Chance(4, 5) {
+				const minute = int64(60e9)
+				prog = append(prog, &Op{Kind: "idle", Name: t, N: core.Pick(g.R, []int64{1 * minute, 2 * minute, 4 * minute, 6 * minute, 6 * minute, 11 * minute})})
+			}
+			if g.R.Chance(3, 4) {
+				prog = append(prog, &Op{Kind: "trygc", Name: t})
+				// looking at the table is a read: it resets the read stamp (as it would in production)
+				if g.R.Chance(1, 2) {
+					prog = append(prog, g.fullRead(t))
+				}
+			}
+			write = false
 		}
 		if write && p.ReadAfterWrite {
 			if g.R.Chance(3, 4) {
